@@ -11,13 +11,13 @@ import (
 type GapClass uint8
 
 const (
-	GB   GapClass = iota // blanks only (space, tab, CR); may be empty
-	GN                   // blanks, line breaks and comments
-	GS                   // statement separator: at least one line break or ';'
-	GBeg                 // start of file
-	GEnd                 // end of file
-	GBlk                 // before the '}' of a non-empty block: optional separators
-	GBlkBeg              // after the '{' of a non-empty block: blanks, line breaks, comments and empty statements
+	GB      GapClass = iota // blanks only (space, tab, CR); may be empty
+	GN                      // blanks, line breaks and comments
+	GS                      // statement separator: at least one line break or ';'
+	GBeg                    // start of file
+	GEnd                    // end of file
+	GBlk                    // before the '}' of a non-empty block: optional separators
+	GBlkBeg                 // after the '{' of a non-empty block: blanks, line breaks, comments and empty statements
 )
 
 // Layout chooses the text of each gap.
@@ -130,6 +130,25 @@ func (p *printer) tok(c GapClass, text string) int {
 	return off
 }
 
+// signed emits the sign tokens of a folded numeric literal and then its magnitude; returns the offset of the first token.
+func (p *printer) signed(c GapClass, signs []string, mag string) int {
+	if len(signs) == 0 {
+		return p.tok(c, mag)
+	}
+	first := p.tok(c, signs[0])
+	for _, sg := range signs[1:] {
+		g := p.lay.Gap(GB)
+		if g == "" {
+			g = " " // two adjacent sign characters would read as another token
+		}
+		p.b.WriteString(g)
+		p.b.WriteString(sg)
+	}
+	p.b.WriteString(p.lay.Gap(GB))
+	p.b.WriteString(mag)
+	return first
+}
+
 // Print renders a program and records positions into the nodes.
 func Print(prog []*Node, lay Layout) string {
 	p := &printer{lay: lay}
@@ -195,18 +214,30 @@ func (p *printer) expr(c GapClass, n *Node) {
 		n.P.Tok = p.tok(c, s)
 		n.P.Start = n.P.Tok
 	case Int:
-		s := n.Raw
-		if s == "" {
-			s = strconv.FormatInt(n.I, 10)
+		mag := n.I
+		for _, sg := range n.Signs {
+			if sg == "-" {
+				mag = -mag
+			}
 		}
-		n.P.Tok = p.tok(c, s)
+		s := n.Raw
+		if s == "" || len(n.Signs) == 0 && n.I < 0 {
+			s = strconv.FormatInt(mag, 10)
+		}
+		n.P.Tok = p.signed(c, n.Signs, s)
 		n.P.Start = n.P.Tok
 	case Float:
+		mag := n.F
+		for _, sg := range n.Signs {
+			if sg == "-" {
+				mag = -mag
+			}
+		}
 		s := n.Raw
 		if s == "" {
-			s = FloatText(n.F)
+			s = FloatText(mag)
 		}
-		n.P.Tok = p.tok(c, s)
+		n.P.Tok = p.signed(c, n.Signs, s)
 		n.P.Start = n.P.Tok
 	case Bool:
 		s := n.Raw
